@@ -31,12 +31,16 @@ import (
 // updates would both start from the same committed state).
 type serialDB struct {
 	*memdb.DB
-	mu sync.Mutex
+	mu    sync.Mutex
+	delay time.Duration // a slow disk: every write transaction takes this much longer
 }
 
 func (s *serialDB) Update(f func(t adb.Txn) error) error {
 	s.mu.Lock()
 	defer s.mu.Unlock()
+	if s.delay > 0 {
+		time.Sleep(s.delay)
+	}
 	return s.DB.Update(f)
 }
 
@@ -348,6 +352,7 @@ type FakePeer struct {
 	p        *p2p.P2P
 	dir      string
 	Stats    packet.PacketStats
+	First    *packet.PacketStats   // announced at connect instead of Stats; Stats follow after the pushed blocks
 	Stale    *packet.PacketStats // sent right after Stats: an older announcement overtaken by a newer one
 	ByHeight map[uint64][]byte    // what a by-height request returns
 	ByHash   map[util.Hash][]byte // what a by-hash request returns
@@ -385,6 +390,16 @@ func (f *FakePeer) run() {
 			select {
 			case c := <-f.p.NewConnections:
 				go func() {
+					if f.First != nil {
+						// announce an older state first, relay the newer blocks unannounced, announce them afterwards
+						f.send(c, packet.STATS, f.First.Serialize())
+						for _, b := range f.OnConnect {
+							f.send(c, packet.BLOCK, b)
+							f.Pushed.Add(1)
+						}
+						f.send(c, packet.STATS, f.Stats.Serialize())
+						return
+					}
 					f.send(c, packet.STATS, f.Stats.Serialize())
 					if f.Stale != nil {
 						f.send(c, packet.STATS, f.Stale.Serialize())
